@@ -106,7 +106,7 @@ def run(model, sc):
     # entered through rename(module, prefix_globals=..., preserved_globals=...), the function minify() calls
     res = I.explore(lambda: I.call_function(MOD + '.rename', [module], {'prefix_globals': sc['prefix_globals'], 'preserved_globals': []}))
     if len(res) != 1 or res[0][0][0] != 'return':
-        raise AnalysisError('UNDECIDED: rename() under %s -> %s' % (sc, [(r[0], r[2][:2]) for r in res][:3]))
+        model.undecided([k for k in hooks if k != 'find__all__'], 'UNDECIDED: rename() under %s -> %s' % (sc, [(r[0], r[2][:2]) for r in res][:3]))
     return [obs[id(bm)], obs[id(bf)]]
 
 
@@ -183,7 +183,7 @@ def reservation_world(model, preserved_globals=('PRESERVED',)):
     I = Interp(model, MOD, hooks)
     res = I.explore(lambda: I.call_function(MOD + '.rename', [module], {'prefix_globals': False, 'preserved_globals': list(preserved_globals)}))
     if len(res) != 1 or res[0][0][0] != 'return':
-        raise AnalysisError('UNDECIDED: rename() on the reservation world -> %s' % [(r[0], r[2][:2]) for r in res][:3])
+        model.undecided([k for k in hooks if k != 'find__all__'], 'UNDECIDED: rename() on the reservation world -> %s' % [(r[0], r[2][:2]) for r in res][:3])
     problems = []
     final = {id(b): b.attrs['name'] for (_n, b) in order}
     label = {id(pinned): 'the pinned binding', id(b1): 'first', id(kept): 'the binding that keeps its name', id(b2): 'second', id(b3): 'third', id(gb): 'the global binding'}
@@ -244,7 +244,7 @@ def sort_world(model):
     I = Interp(model, MOD, hooks)
     res = I.explore(lambda: I.call_function(MOD + '.rename', [module], {'prefix_globals': False, 'preserved_globals': []}))
     if len(res) != 1 or res[0][0][0] != 'return':
-        raise AnalysisError('UNDECIDED: rename() on the sorting world -> %s' % [(r[0], r[2][:2]) for r in res][:3])
+        model.undecided([k for k in hooks if k != 'find__all__'], 'UNDECIDED: rename() on the sorting world -> %s' % [(r[0], r[2][:2]) for r in res][:3])
     if len(named) != 4:
         raise AnalysisError('sorting world: %d of 4 bindings were named' % len(named))
     return named, counts
